@@ -224,6 +224,18 @@ def _impl(op, a):
     if op == "pw_w2ptab":
         return guarded(lambda: ";".join(sorted(fw(k) + ":" + fseq(v)
                                                for k, v in PW.pinword_to_perm_mapping(int(a[0])).items())))
+    if op in ("pw_w2pdig", "pw_p2wdig"):
+        # the same two tables at a length where the text is too long for the line protocol (81152 words at length 6):
+        # size and digest of the canonical text, against the oracle's own decoding of its own listing of the language
+        def dig():
+            import hashlib
+            n = int(a[0])
+            if op == "pw_w2pdig":
+                t = ";".join(sorted(fw(k) + ":" + fseq(v) for k, v in PW.pinword_to_perm_mapping(n).items()))
+            else:
+                t = _fp2w(PW.perm_to_pinword_mapping(n))
+            return "len=%d,md5=%s" % (len(t), hashlib.md5(t.encode()).hexdigest())
+        return guarded(dig)
     if op == "pw_p2wtab":
         return guarded(lambda: _fp2w(PW.perm_to_pinword_mapping(int(a[0]))))
     if op == "pw_p2swtab":
@@ -508,6 +520,15 @@ def oracle(op, a):
         return None         # yield order is not constrained by the property: model comparison only
     if op == "pw_w2ptab":
         return ";".join(sorted(fw(w) + ":" + fseq(geo_perm(w)) for w in language(int(a[0]))))
+    if op in ("pw_w2pdig", "pw_p2wdig"):
+        import hashlib
+        n = int(a[0])
+        if op == "pw_w2pdig":
+            t = ";".join(sorted(fw(w) + ":" + fseq(geo_perm(w)) for w in language(n)))
+        else:
+            tb = oracle_table(n)
+            t = ";".join(sorted(fseq(k) + ":" + ",".join(sorted(fw(x) for x in v)) for k, v in tb.items()))
+        return "len=%d,md5=%s" % (len(t), hashlib.md5(t.encode()).hexdigest())
     if op in ("pw_p2wtab", "pw_p2swtab"):
         t = oracle_table(int(a[0]))
         if op == "pw_p2swtab":
@@ -550,7 +571,7 @@ def oracle(op, a):
 
 
 def nontrivial(op, a, out):
-    if op in ("pw_len", "pw_set", "pw_sset", "pw_w2ptab", "pw_p2wtab", "pw_p2swtab"):
+    if op in ("pw_len", "pw_set", "pw_sset", "pw_w2ptab", "pw_p2wtab", "pw_p2swtab", "pw_w2pdig", "pw_p2wdig"):
         return int(a[0]) >= 2
     if op == "pw_tblhist":
         return True
@@ -629,6 +650,9 @@ def run(ctx):
         for op in ("pw_len", "pw_set", "pw_sset", "pw_w2ptab", "pw_p2wtab", "pw_p2swtab"):
             lines.append("%s %d" % (op, n))
     ctx.compare("exhaustive-tables", lines)
+    # the next table lengths by size and digest only (oracle comparison; the text does not go through the driver)
+    ctx.compare("table-digests", ["%s %d" % (op, n) for n in range(N + 1, 7) for op in ("pw_w2pdig", "pw_p2wdig")],
+                use_model=False)
     # ---- translations: all numeral+directions words and all direction words up to length 7
     lines = []
     for n in range(0, 7):
@@ -763,6 +787,13 @@ def run(ctx):
                         lines.append("pw_w2p " + w)
     rng.shuffle(lines)
     ctx.compare("large-words", lines)
+    # decoding of VERY long words (beyond the interpreter's default recursion limit): the all-numeral word, strict and
+    # general random words
+    lines = ["pw_w2p " + "1" * 1200, "pw_w2p " + "3" * 1001]
+    for _ in range(2 if quick else 12):
+        lines.append("pw_w2p " + rand_word(rng, rng.randrange(1000, 1300), strict=True))
+        lines.append("pw_w2p " + rand_word(rng, rng.randrange(990, 1300), strict=False))
+    ctx.compare("very-long-decoding", lines)
     R2 = 150 if quick else 2500
     lines = []
     for _ in range(R2):
